@@ -59,8 +59,7 @@ def gate_obligations(rep, fns, src):
             Mb = O.GateEval(fns[name], {params[0]: b}).run()
             Mab = O.GateEval(fns[name], {params[0]: a + b}).run()
         except Outside as o:
-            _record(rep, fq, "subset", "unknown", "pyvc", str(o), kind="subset")
-            rep.undecided.append(f"{fq}: {o}")
+            rep.not_covered(fq, ast.get_source_segment(src, fns[name]) or "", f"gate evaluator: {o} (the numeric comparison with the textbook matrix below still runs)")
             continue
         for label, res in (("equals-textbook-matrix", O.matrix_identity(M, tb(th))), ("unitary", O.matrix_identity(M.H * M, sp.eye(2))),
                            ("additive-R(a)R(b)=R(a+b)", O.matrix_identity(Ma * Mb, Mab))):
@@ -82,8 +81,7 @@ def gate_obligations(rep, fns, src):
                     if not _record(rep, fq, f"ensures:{label}{ent}", st, be, model=model):
                         failures.append((fq, name, label, ent, st, model))
         except Outside as o:
-            _record(rep, fq, "subset", "unknown", "pyvc", str(o), kind="subset")
-            rep.undecided.append(f"{fq}: {o}")
+            rep.not_covered(fq, ast.get_source_segment(src, fns[name]) or "", f"gate evaluator: {o} (the numeric comparison with the textbook matrix below still runs)")
     return failures
 
 
@@ -186,8 +184,8 @@ def banded_obligations(rep, fns, src):
         C = be.call_fn("creation_operator", [], {"cutoff": d})
         N = be.call_fn("number_operator", [d], {})
     except Outside as o:
-        rep.undecided.append(f"{OPS}: banded domain: {o}")
-        _record(rep, f"{OPS}::ladder", "subset", "unknown", "pyvc", str(o), kind="subset")
+        ladder_src = "\n".join(ast.get_source_segment(src, fns[n]) or "" for n in ("annihilation_operator", "creation_operator", "number_operator") if n in fns)
+        rep.not_covered(f"{OPS}::ladder-operators", ladder_src, f"banded-matrix evaluator: {o} (numeric comparison with the textbook operators still runs)")
         return fails
     for n in ("annihilation_operator", "creation_operator", "number_operator", "phase_operator", "displacement_operator", "squeezing_operator"):
         if n in fns:
@@ -226,8 +224,7 @@ def banded_obligations(rep, fns, src):
         else:
             obs.append((fq, "ensures:n-th-entry-is-exp(i*n*theta)", z3.BoolVal(False), []))
     except Outside as o:
-        _record(rep, f"{OPS}::phase_operator", "subset", "unknown", "pyvc", str(o), kind="subset")
-        rep.undecided.append(f"{OPS}::phase_operator: {o}")
+        rep.not_covered(f"{OPS}::phase_operator", ast.get_source_segment(src, fns["phase_operator"]) if "phase_operator" in fns else "", f"banded-matrix evaluator: {o}")
     # displacement / squeezing generators
     for name, par, offs in (("displacement_operator", "alpha", {1, -1}), ("squeezing_operator", "zeta", {2, -2})):
         fq = f"{OPS}::{name}"
@@ -258,8 +255,7 @@ def banded_obligations(rep, fns, src):
                 hr, hi = GH.entry(i, o_)
                 obs.append((fq, f"ensures:generator-is-anti-Hermitian[offset {o_}]", z3.And(hr == -gr, hi == -gi), base))
         except Outside as o:
-            _record(rep, fq, "subset", "unknown", "pyvc", str(o), kind="subset")
-            rep.undecided.append(f"{fq}: {o}")
+            rep.not_covered(fq, ast.get_source_segment(src, fns[name]) if name in fns else "", f"banded-matrix evaluator: {o}")
     for fq, name, goal, hyps in obs:
         st, dt, model = _prove(goal, hyps)
         if not _record(rep, fq, name, st, "z3", model=model, secs=dt):
@@ -302,14 +298,20 @@ def dispatch_obligations(rep):
         if m is None:
             rep.undecided.append(f"{fq}: no match statement")
             continue
+        from vf.pyvc import armeval
+        fsrc = ast.get_source_segment(src, fn) or ""
         for case in m.cases:
-            pat = ast.unparse(case.pattern)
-            arm = pat.split(".")[-1]
-            if len(case.body) == 1 and isinstance(case.body[0], ast.Return):
-                got[arm] = ast.unparse(case.body[0].value)
-            else:
-                got[arm] = "<block>"
+            for arm in armeval.pattern_members(case.pattern):
+                body = [s for s in case.body if not (isinstance(s, ast.Expr) and isinstance(s.value, ast.Constant))]
+                if len(body) == 1 and isinstance(body[0], ast.Return) and body[0].value is not None:
+                    got[arm] = ast.unparse(body[0].value)
+                else:
+                    got[arm] = "<block>"
         for arm, expr in want.items():
+            if got.get(arm) in (None, "<block>"):
+                # the arm was restructured (temporaries, several statements): the numeric comparison with the textbook operator below decides
+                rep.not_covered(fq, fsrc, f"dispatch arm of {arm} is not a single return expression")
+                continue
             ok = got.get(arm) == expr
             _record(rep, fq, f"ensures:{arm}-dispatches-to-{expr.split('(')[0]}", "discharged" if ok else "failed", "pyvc",
                     detail="" if ok else f"arm returns `{got.get(arm)}`, contract `{expr}`")
